@@ -32,6 +32,8 @@ def order_value(prog: Program, fi: FuncInfo, e: Optional[ast.expr]) -> Optional[
     c = const(e)
     if c in ("F", "C"):
         return c
+    if c in ("K", "A"):
+        return "MEM"
     if c is NOCONST and isinstance(e, ast.Attribute) and e.attr == "order":
         # self.order / other.order / X.order: the classes' order property
         if isinstance(e.value, ast.Name) and fi.cls and fi.params() and e.value.id == fi.params()[0] and fi.cls in TENSOR_CLASSES:
@@ -158,7 +160,12 @@ class Pairing:
                 if a and b:
                     self.pairs.append((a, b, f"accumarray({ast.unparse(e.args[0])}, {ast.unparse(e.args[1])})", e))
                 return None
-            if base in ("all", "any", "max", "min", "sum", "array_equal") and e.args:
+            if base in ("allclose", "isclose", "array_equal", "array_equiv") and len(e.args) >= 2:
+                a, b = self.tag(e.args[0]), self.tag(e.args[1])
+                if a and b:
+                    self.pairs.append((a, b, f"{base}({self.canon.text(e.args[0])}, {self.canon.text(e.args[1])})", e))
+                return None
+            if base in ("all", "any", "max", "min", "sum") and e.args:
                 for a in e.args:
                     self.tag(a)
                 return None
